@@ -61,11 +61,13 @@ def generate(seed, stratum, tier):
   for c in range(1, nclients):
     clients[c].insert(0, ['sleep', 0.001])
   victims = [rng.choice(['consumer', 'client'])]
-  return {'objects': objs, 'queue_size': cap, 'clients': clients, 'stratum': stratum,
+  return {'objects': objs, 'queue_size': cap, 'clients': clients, 'stratum': stratum, 'stalls': common.draw_stalls(rng, 1500),
           'sched': common.draw_sched(rng, grans=('sync', 'line', 'opcode'), weights=(1, 3, 2), expected_steps=1500, victims=victims)}
 
 
 def shrink_candidates(sc):
+  if sc.get('stalls'):
+    yield dict(sc, stalls={})
   cl = sc['clients']
   for i, s in enumerate(cl):
     for j in range(len(s) - 1, -1, -1):
